@@ -14,7 +14,8 @@ import (
 
 // concurrentWritersThenRestart: several goroutines mutate one aof store at the
 // same time - one of them by bulk Imports (a range hand-over arriving) that
-// overlap the keys the others Put, Delete, append to and remove - then the
+// overlap the keys the others Put, Delete, append to and remove, while three
+// readers keep asking for keys that are written for the first time - then the
 // store is stopped cleanly and reopened. No model is needed for the property:
 // whatever order the store gave the concurrent mutations, the values and
 // children it serves right before the Stop are the ones it must serve after
@@ -27,6 +28,14 @@ func concurrentWritersThenRestart(base string, seed int64, rounds int) (problem 
 		bulk[i] = fmt.Sprintf("bulk-%03d", i)
 	}
 	keys := append(append([]string{}, keyAlphabet...), bulk...)
+	// keys written exactly once per round, while readers keep asking for them (a read of a key
+	// the store has never seen, overlapping the first write of that key)
+	const freshPerWriter = 150
+	for w := 0; w < 4; w++ {
+		for i := 0; i < freshPerWriter; i++ {
+			keys = append(keys, fmt.Sprintf("fresh-%d-%03d", w, i))
+		}
+	}
 	for round := 0; round < rounds; round++ {
 		dir := scratchDir(base, "c21c")
 		kv, err := openAOF(dir, chord.Hash)
@@ -70,6 +79,33 @@ func concurrentWritersThenRestart(base string, seed int64, rounds int) (problem 
 				nMut.Add(1)
 			}
 		}()
+		// readers: nothing they do is a mutation
+		var writersDone atomic.Bool
+		var nextFresh [4]atomic.Int64
+		var rwg sync.WaitGroup
+		for rd := 0; rd < 3; rd++ {
+			rwg.Add(1)
+			go func(rd int) {
+				defer rwg.Done()
+				for !start.Load() {
+					runtime.Gosched()
+				}
+				// each reader polls the key "its" writer is about to write for the first time
+				w := rd % writers
+				names := make([][]byte, freshPerWriter)
+				for i := range names {
+					names[i] = []byte(fmt.Sprintf("fresh-%d-%03d", w, i))
+				}
+				for !writersDone.Load() {
+					k := names[nextFresh[w].Load()]
+					if rd == 2 {
+						kv.PrefixContains(bg, k, []byte("c0"))
+					} else {
+						kv.Get(bg, k)
+					}
+				}
+			}(rd)
+		}
 		for w := 0; w < writers; w++ {
 			wg.Add(1)
 			go func(w int) {
@@ -78,6 +114,19 @@ func concurrentWritersThenRestart(base string, seed int64, rounds int) (problem 
 				ready.Add(1)
 				for !start.Load() {
 					runtime.Gosched()
+				}
+				for i := 0; i < freshPerWriter; i++ {
+					k := []byte(fmt.Sprintf("fresh-%d-%03d", w, i))
+					nextFresh[w].Store(int64(i))
+					for spin := 0; spin < 200; spin++ {
+						_ = start.Load()
+					}
+					if i%3 == 2 {
+						kv.PrefixAppend(bg, k, []byte("c0"))
+					} else {
+						kv.Put(bg, k, []byte(fmt.Sprintf("f%d-%d", w, i)))
+					}
+					nMut.Add(1)
 				}
 				for i := 0; i < opsEach; i++ {
 					k := []byte(keys[r.Intn(len(keys))])
@@ -102,6 +151,8 @@ func concurrentWritersThenRestart(base string, seed int64, rounds int) (problem 
 		}
 		start.Store(true)
 		wg.Wait()
+		writersDone.Store(true)
+		rwg.Wait()
 		muts += nMut.Load()
 		before, err := readAll(kv, keys, false)
 		if err != nil {
